@@ -16,6 +16,7 @@ PROPS = {
         assumptions=[T_VSTD, T_ARITH, T_EXTRACT, "T-swap: <[T]>::swap swaps two in-bounds elements", "T-veclen: a Vec's length is <= usize::MAX (<= isize::MAX for Vec<usize>)"],
     ),
     'C08': dict(
+        bounded_families=['iter'],
         level='proof',
         explanation=("Matches::next (find_iter) is verified by Verus to be exactly one step of the reference iteration model transcribed from the property "
                      "(search from the previous end with the skipped-empty flag, step one character after an empty match, drop an empty match adjacent to the previous match, "
@@ -27,6 +28,7 @@ PROPS = {
                      "T-strlen: a str is at most isize::MAX bytes", "next_utf8's contract (proved in U-UTF8)"],
     ),
     'C09': dict(
+        bounded_families=['iter', 'search'],
         level='proof',
         explanation=("CaptureMatches::next is verified to perform the SAME reference-model step as Matches::next on the span of group 0 (so captures_iter yields exactly the spans find_iter yields, "
                      "in the same order, including the skipped-empty-match flag and the Err history); Match::new builds the span it is given; captures_iter starts in the initial state."),
@@ -34,6 +36,7 @@ PROPS = {
         assumptions=[T_VSTD, T_ARITH, T_EXTRACT, "T-find / T-captures: captures_from_pos_with_option_flags is the same search as find_from_pos_with_option_flags and Captures::get(0) is its span"],
     ),
     'C10': dict(
+        bounded_families=['iter'],
         level='proof',
         explanation=("Split::next and SplitN::next are verified equal to one step of the reference split/splitn model over the find_iter model (piece = text between previous match end and next match start, "
                      "remainder exactly once, n = 0 yields nothing, the n-th item is the untouched remainder), with every slice proved in bounds and on character boundaries; split/splitn start in the initial state."),
@@ -41,6 +44,7 @@ PROPS = {
         assumptions=[T_VSTD, T_ARITH, T_EXTRACT, "T-find", "T-strslice: &s[a..b] on str yields the byte sub-range (vstd gives only its precondition)"],
     ),
     'C16': dict(
+        bounded_families=['search'],
         level='proof',
         explanation=("Verified by Verus for the VM engine: Captures::get maps slot pairs to Option<Match> exactly as documented (None past the end, None for an unset start slot, no overflow for any index), "
                      "Captures::len is the number of slot pairs, Captures::iter / SubCaptureMatches::next yields get(0..len) in order, captures_from_pos truncates to exactly captures_len groups, "
@@ -51,6 +55,7 @@ PROPS = {
                      "T-RA: regex-automata Captures accessors (ARMSUB shims)"],
     ),
     'C13': dict(
+        bounded_families=['analyze'],
         level='proof',
         explanation=("Analyzer::visit is verified by Verus, for EVERY expression tree (structural induction carried by the real recursive function), against the spec match-length relation len_of: "
                      "at every node of the Info tree no n with len_of(e, n) is below the computed min_size, and when const_size is set every n <= usize::MAX with len_of(e, n) equals min_size "
@@ -61,5 +66,25 @@ PROPS = {
         assumptions=[T_VSTD, T_ARITH, T_EXTRACT, "T-parser-shape: trees reaching analyze satisfy expr_wf (every Alt non-empty, every Literal node one character) and have at most usize::MAX groups",
                      "T-delegate-size / T-casefold: a Delegate node matches exactly `size` characters; case-insensitive literals match the same number of characters",
                      "T-bitset: bit_set::BitSet::contains is a pure membership test"],
+    ),
+    'C17': dict(
+        level='proof',
+        explanation=("Verified by Verus: is_special is exactly the 15-character meta set; push_quoted appends quote(s) (each meta-character preceded by one backslash, everything else verbatim) for every string; "
+                     "lemma_unquote_quote: reading a quoted string back yields the original; lemma_quote_id: a string without meta-characters is its own quoting; "
+                     "the byte-level helpers used when the escaped string is matched by the VM (codepoint_len, prev_codepoint_ix, matches_literal) are verified in U-UTF8."),
+        residual=("`escape` itself (iterator adapters: outside Verus' dialect) and 'Regex::new(escape(s)) finds the first literal occurrence, also embedded in fancy hosts' are decided only by the BOUNDED "
+                  "family `quote` (all strings of length <= 3 over a 28-character alphabet incl. every meta-character and 2-4 byte characters, 5 host patterns, 7 texts) -- listed under coverage.bounded, never counted as proved."),
+        assumptions=[T_VSTD, T_ARITH, T_EXTRACT, "vstd's model of String::push / str::chars"],
+        bounded_families=['quote'],
+    ),
+    'C06': dict(
+        level='proof',
+        explanation=("Verified by Verus for every expression tree / every input: the analysis (Analyzer::visit, analyze) has no arithmetic overflow (Verus checks every + - *; the group counter is bounded by the tree's group count) and terminates; "
+                     "whatever the analysis does not label hard is in the syntactic class `easy` (lemma_easy) and Expr::to_str on an easy tree never reaches its panic!, terminates, and push_usize never overflows its u8 digit arithmetic; "
+                     "codepoint_len (the parser's stepping function) returns the encoded width of every leading byte."),
+        residual=("Parser panic-freedom / termination / error positions for arbitrary strings, the named-backreference bound (fixed by f23eb9e) and regex-automata's builder are NOT decided by proof: parse.rs is outside Verus' dialect; "
+                  "they are exercised only by the bounded families. compile.rs arithmetic is decided in U-COMPILE."),
+        assumptions=[T_VSTD, T_ARITH, T_EXTRACT, "T-parser-shape (expr_wf) for trees reaching analyze"],
+        bounded_families=['analyze'],
     ),
 }
